@@ -849,8 +849,19 @@ def run_scaled(chk, seed):
                         rec = (evecs * evals.unsqueeze(-2)) @ evecs.mT
                         e = (rec - target).abs().max().item()
                         eo = (evecs.mT @ evecs - eye).abs().max().item()
-                        if e > 1e-9 * normA or eo > 1e-8:
-                            chk.violation(cid, f"diagonalization: V diag(e) Vt differs from Q (T + 1e-6 min(diag T) I) Qt by {e / normA:.1e} |A|; VtV-I={eo:.1e}", payload)
+                        # code as it is (open finding): Diagonalization adds the jitter to EVERY entry of T
+                        jm = jit * torch.diagonal(t, dim1=-1, dim2=-2).min(dim=-1, keepdim=True)[0].unsqueeze(-1)
+                        asis = q @ (t + jm * torch.ones(n, n, dtype=F64)) @ q.mT
+                        e_asis = (rec - asis).abs().max().item()
+                        if min(e, e_asis) > 1e-9 * normA or eo > 1e-8:
+                            chk.violation(cid, f"diagonalization: V diag(e) Vt differs from Q (T + 1e-6 min(diag T) I) Qt by {e / normA:.1e} |A| "
+                                          f"(and from the all-entries variant by {e_asis / normA:.1e} |A|); VtV-I={eo:.1e}", payload)
+                            continue
+                        dcid = cid.replace("/diag/", "/diag.jitter-on-diagonal-only/")
+                        chk.case(dcid)
+                        if e > 1e-9 * normA:
+                            chk.violation(dcid, f"Diagonalization.forward adds the tridiagonal jitter to every entry of T, not to its diagonal: "
+                                          f"V diag(e) Vt - Q (T + jI) Qt = {e / normA:.1e} |A|", payload)
 
 
 def check_post(chk, post_lines):
